@@ -29,5 +29,5 @@ MANIFEST = {
     'category': 'proof',
     'technique': 'contract-based deductive verification (pyvc VCs from the Cython/Python source, z3 incl. nonlinear integer arithmetic); bounded run-time contracts vs dense np.kron for numpy glue',
     'text': 'The unchecked compiled kernels are verified from source: every array access of ml_nonzero_2d/3d/nd and ml_matvec_2d/3d is in bounds under the structure well-formedness predicate, every stored (row,col) pair equals the Kronecker position of the current per-level nonzeros and is stored at its C-order rank (lower_tri: only if col<=row), the odometer of ml_nonzero_nd keeps block_i/block_j consistent with its cursor; reindex_from_reordered / reindex_from_multilevel decode exactly the block coordinates, to_seq/from_seq are mutually inverse (injectivity lemma), sequential_bidx ravels with the column count, and MLMatrix._matvec meets the kernel precondition (result length = rows). asmatrix/dot/reorder/transpose/row-column queries/kron_partial/compute_sparsity_ij are compared with the dense Kronecker definition on enumerated patterns (bounded).',
-    'note': 'C integers as mathematical integers with range obligations at stores; finite level counts (nd L<=4, maps L<=3); write-time form of the pattern clause; bounded domain as stated in evidence; z3 nonlinear arithmetic trusted.',
+    'note': 'C integers as mathematical integers with range obligations at stores; finite level counts (nd L<=4, maps L<=3); write-time form of the pattern clause; bounded domain as stated in evidence; z3 nonlinear arithmetic trusted. Products of operands declared with C types of at most 32 bits carry a range obligation (safe:int-product) in ml_nonzero_2d/3d and ml_matvec_2d/3d; fixed in /repo: those products wrapped at 2^32 (row/column numbers of structures with more than 2^32 rows), decided natively by the `large` cases.',
 }
